@@ -4,6 +4,7 @@ import TgModel.Props.C02
 import TgModel.Props.C06
 import TgModel.Props.C07
 import TgModel.Props.C10
+import TgModel.Props.C14
 import TgModel.Props.C15
 import TgModel.Props.C16
 import TgModel.Props.C20
